@@ -46,7 +46,8 @@ REAL_VS_STUB = {"real": ["sdeint, BaseSDESolver.integrate (adaptive loop), adapt
 PROBES = ("trials", "accepted", "rejected", "rejection_at_dt_min", "ge5_consecutive_rejections", "step_at_dt_min",
           "accepted_with_err_gt_1_at_dt_min", "final_step_clipped", "final_step_le_4ulp", "value_model_trials",
           "err_recomputed", "outputs_checked", "conf_real", "conf_adv", "real_bm", "stub_bm", "f32", "stiff",
-          "err_hugging_1", "via_sdeint_adjoint", "unsplittable_trial_modelled")  # (scheme_diverged is counted too; it is zero in most batches)
+          "err_hugging_1", "via_sdeint_adjoint", "unsplittable_trial_modelled", "backward_mode", "backward_trials",
+          "backward_segments", "backward_clipped_short_trial")  # (scheme_diverged is counted too; it is zero in most batches)
 STATE_MEASURE = "distinct accept/reject words (one letter per trial) together with (solver, noise type)"
 
 
@@ -107,12 +108,20 @@ def gen_case(seed, tier, idx):
     tail = 0
     if rs.random() < 0.06:
         tail = rs.choice([1, 2, 4])  # horizon a few ulp beyond the previous accepted boundary (see known finding D7)
-    return {"solver": solver, "sde": spec, "dtype": dtype, "ts": [fx(t) for t in ts], "dt": fx(dt), "dt_min": fx(dt_min),
+    case = {"solver": solver, "sde": spec, "dtype": dtype, "ts": [fx(t) for t in ts], "dt": fx(dt), "dt_min": fx(dt_min),
             "rtol": fx(rtol_), "atol": fx(atol_),
             "conf": conf, "script": [fx(x) for x in script], "bm": "real" if rs.random() < 0.25 else "stub",
             "bm_seed": rs.randrange(1 << 30), "cache_size": rs.choice([45, 2]), "tail_ulps": tail,
             # 20%: through sdeint_adjoint (forward pass), with other tolerances for the backward solve
             "entry": "sdeint_adjoint" if rs.random() < 0.2 else "sdeint"}
+    # 8%: dt / dt_min / tolerances handed over as 0-dim tensors (the documented Scalar type); the caller's tensors must
+    # come back unchanged and the schedule must obey the same rules
+    case["scalars_as_tensors"] = rs.random() < 0.08
+    if rs.random() < 0.10:
+        # 10%: the adaptive *backward* pass of sdeint_adjoint (adjoint_adaptive=True), see c14_backward.py
+        from . import c14_backward
+        case = c14_backward.gen_case(st, case)
+    return case
 
 
 # ----------------------------------------------------------------------------------------
@@ -182,6 +191,9 @@ def rms_error(y_full, y_half, rtol, atol, eps=1e-7):
 
 def run_case(case, keep_log=False):
     import torchsde
+    if case.get("entry") == "adjoint_backward":
+        from . import c14_backward
+        return c14_backward.run_case(case, keep_log)
     log = EventLog(keep_log)
     probes = {k: 0 for k in PROBES}
     violation = None
@@ -194,6 +206,9 @@ def run_case(case, keep_log=False):
     y0 = stubs.make_y0(spec, case["dtype"])
     dt, dt_min = xf(case["dt"]), xf(case["dt_min"])
     rtol, atol = xf(case["rtol"]), xf(case["atol"])
+    if case.get("scalars_as_tensors"):
+        # the oracle uses the values actually handed over (a float32 tensor holds float32(1e-3), not 1e-3)
+        dt, dt_min, rtol, atol = (float(torch.tensor(v, dtype=tdt)) for v in (dt, dt_min, rtol, atol))
     kw = {}
     if solver["options"]:
         kw["options"] = dict(solver["options"])
@@ -264,18 +279,28 @@ def run_case(case, keep_log=False):
                     raise Online(Violation("trial_shorter_than_dt_min", {"k": cur["n"] - 1, "a": fx(ta), "b": fx(tb),
                                                                          "dt_min": dt_min, "online": True}, cur["n"] - 1))
             rec.on_request = online
+            as_t = case.get("scalars_as_tensors")
+            sc = (lambda v: torch.tensor(v, dtype=tdt)) if as_t else (lambda v: v)
+            a_dt, a_dt_min, a_rtol, a_atol = sc(dt), sc(dt_min), sc(rtol), sc(atol)
             with Recorder(conf, script) as R, seams.CallMonitor(budget) as mon:
                 try:
                     with torch.no_grad():
                         if case.get("entry") == "sdeint_adjoint":
-                            ys = torchsde.sdeint_adjoint(sde, y0, ts_t, bm=rec, method=solver["method"], dt=dt, adaptive=True,
-                                                         rtol=rtol, atol=atol, dt_min=dt_min, adjoint_rtol=rtol * 37 + 1e-3,
+                            ys = torchsde.sdeint_adjoint(sde, y0, ts_t, bm=rec, method=solver["method"], dt=a_dt, adaptive=True,
+                                                         rtol=a_rtol, atol=a_atol, dt_min=a_dt_min, adjoint_rtol=rtol * 37 + 1e-3,
                                                          adjoint_atol=atol * 37 + 1e-3, **kw)
                         else:
-                            ys = torchsde.sdeint(sde, y0, ts_t, bm=rec, method=solver["method"], dt=dt, adaptive=True,
-                                                 rtol=rtol, atol=atol, dt_min=dt_min, **kw)
+                            ys = torchsde.sdeint(sde, y0, ts_t, bm=rec, method=solver["method"], dt=a_dt, adaptive=True,
+                                                 rtol=a_rtol, atol=a_atol, dt_min=a_dt_min, **kw)
+                    if as_t:
+                        got = [float(a_dt), float(a_dt_min), float(a_rtol), float(a_atol)]
+                        want = [float(sc(dt)), float(sc(dt_min)), float(sc(rtol)), float(sc(atol))]
+                        if got != want:
+                            raise Violation("caller_scalar_modified", {"got": got, "want": want}, "run")
                 except Online as o:
                     raise o.v
+                except Violation:
+                    raise
                 except SimBudgetExceeded as e:
                     raise Violation("no_termination", {"trials_so_far": len(R.errs), "bound": bound, "msg": str(e)}, "run")
                 except Exception as e:  # noqa
@@ -526,7 +551,8 @@ def finding_applies(finding, case, violation):
 
 def nontrivial(stats):
     p = stats.get("probes", {})
-    return bool(p.get("trials", 0) >= 3 and (p.get("rejected") or p.get("step_at_dt_min")) and p.get("value_model_trials"))
+    return bool(p.get("trials", 0) >= 3 and (p.get("rejected") or p.get("step_at_dt_min"))
+                and (p.get("value_model_trials") or p.get("backward_trials")))
 
 
 def sample_of(case, stats):
